@@ -276,7 +276,7 @@ def layout_runs(ck):
     # depth <= 1: every wrapper, every layout parameter
     if quick:
         runs.append(("LineTrack depth<=1, all layouts",
-                     lt_cfg(ALL_WRAPPERS[:3] + ALL_WRAPPERS[6:], 1, [0, 2], ["tight", "nl", "txtnl"], ["tight", "nl", "nlsp"],
+                     lt_cfg(ALL_WRAPPERS[:3] + ALL_WRAPPERS[6:], 1, [0, 2], ["tight", "txtnl"], ["tight", "nl", "nlsp"],
                             ALL_SIGNS, [0, 1], [False, True], ["raise", "badtag", "badchar"])))
         runs.append(("LineTrack depth 2, every nesting",
                      lt_cfg(ALL_WRAPPERS, 2, [1], ["nl"], ["nl"], ["none", "both"], [0], [False, True],
@@ -472,7 +472,7 @@ def part_traces(ck, cases):
     quick = ck.tier == "quick"
     t0 = time.time()
     rnd = random.Random(ck.seed * 31 + 5)
-    traces, meta = record_traces(cases, rnd, 250 if quick else 3000)
+    traces, meta = record_traces(cases, rnd, 120 if quick else 3000)
     if not traces:
         raise core.MachineryError("no code-generator traces recorded")
     n = validate_traces(ck, traces, meta)
